@@ -2,7 +2,7 @@
 from hypothesis import strategies as st
 
 from harness import build, gen, simnet, wire, httpref, deflateref
-from harness.runner import Prop, Enumeration, held, failed, after_every_prelude, with_noise, with_companion
+from harness.runner import Prop, Enumeration, held, failed, after_every_prelude, with_noise, with_companion, with_debug_log
 from props.c01 import effective_seg, compare_events
 
 
@@ -167,6 +167,8 @@ class C14(Prop):
             "companion": gen.companion(),
             # calls with unsendable arguments that the application tries (and whose error it catches) on the way
             "noise_calls": gen.noise_calls(),
+            # the application has switched on DEBUG logging for the library
+            "debug_log": gen.debug_log(),
             # permessage-deflate negotiated (any parameters); the data messages selected by cmask are sent
             # compressed by the peer, so Pings also arrive between the fragments of compressed messages
             # (Pongs must still go out uncompressed, with the Ping's payload)
@@ -205,7 +207,7 @@ class C14(Prop):
              "close_at": None, "fault": None, "seg": "whole", "deflate": False, "cmask": 0},
         ]
         return [Enumeration("pong_before_reaction_all_single_preemptions", cases, exhaustive=True),
-                after_every_prelude(battery), with_noise(battery), with_companion(battery),
+                after_every_prelude(battery), with_noise(battery), with_companion(battery), with_debug_log(battery),
                 Enumeration("pings_followed_by_every_kind_of_violating_frame",
                             lambda: (dict(b, tail_violation={"class": c, "a": a, "b": 1, "wide": False}, seg=seg, deflate=d)
                                      for b in battery for c in TAIL_CLASSES for a in (0, 1, 2)
